@@ -2,6 +2,9 @@ package ksw
 
 import (
 	"bytes"
+	"sort"
+	"errors"
+	"strconv"
 	"fmt"
 	"strings"
 	"testing"
@@ -29,6 +32,7 @@ var c20Messages = []string{
 	"tricky integrity=00ff00 suffix", "ends with integrity=", " integrity=deadbeef", "chain=new", "chain=end", "a chain=new",
 	"End of current audit log chain", "end of current audit log chain", "End of current audit log chain chain=end",
 	"line\nbreak", "carriage\rreturn", "tab\there", "quote\"inside", "back\\slash", "pipe|in|msg", "equals=sign key=value",
+	"\x01err:multi\nline database error", "\x01err:plain error", "\x01int:9007199254740993", "\x01int:-42", "\x01int:1790000000123456789", "\x01flt:3.25", "\x01bool:true",
 	"unicode ✓ ключ 鍵", "nul\x00byte", "bad utf8 \xff\xfe", "{\"json\":\"inside\"}", "CEF:0|fake|header|1|100|x|1|",
 	"msg=\"fake\" level=info", "trailing space ", "  leading", "very " + strings.Repeat("long ", 60),
 }
@@ -120,6 +124,28 @@ func c20GenuineEnd(plan *kernel.Plan, lines []string, i int) bool {
 	return true
 }
 
+// c20FieldValue turns a pool entry into a field value; entries starting with
+// \x01 stand for non-string values (errors, integers, floats, booleans).
+func c20FieldValue(s string) interface{} {
+	if !strings.HasPrefix(s, "\x01") {
+		return s
+	}
+	kind, rest, _ := strings.Cut(s[1:], ":")
+	switch kind {
+	case "err":
+		return errors.New(rest)
+	case "int":
+		n, _ := strconv.ParseInt(rest, 10, 64)
+		return n
+	case "flt":
+		f, _ := strconv.ParseFloat(rest, 64)
+		return f
+	case "bool":
+		return rest == "true"
+	}
+	return s
+}
+
 type c20Writer struct{ buf bytes.Buffer }
 
 func (w *c20Writer) Write(p []byte) (int, error) { return w.buf.Write(p) }
@@ -188,7 +214,7 @@ func (C20) Run(t *testing.T, plan *kernel.Plan, keepLog bool) *kernel.Result {
 				default:
 					fields := log.Fields{}
 					for k := 1; k+1 < len(op.S); k += 2 {
-						fields[op.S[k]] = op.S[k+1]
+						fields[op.S[k]] = c20FieldValue(op.S[k+1])
 					}
 					e := log.WithFields(fields)
 					switch op.Arg(0, 0) {
@@ -323,6 +349,40 @@ func (C20) Run(t *testing.T, plan *kernel.Plan, keepLog bool) *kernel.Result {
 			endMarkerTag = ""
 			if !ok {
 				return
+			}
+		}
+		// swap entries standing at the same position of two different chains
+		firstOf := map[int]int{}
+		for i := range lines {
+			if protected[i] {
+				if _, ok := firstOf[chainOf[i]]; !ok {
+					firstOf[chainOf[i]] = i
+				}
+			}
+		}
+		var chains []int
+		for c := range firstOf {
+			chains = append(chains, c)
+		}
+		sort.Ints(chains)
+		for _, ca := range chains {
+			for _, cb := range chains {
+				if ca >= cb {
+					continue
+				}
+				fa, fb := firstOf[ca], firstOf[cb]
+				for off := 1; fa+off < len(lines) && fb+off < len(lines) && off <= 3; off++ {
+					i, j := fa+off, fb+off
+					if !protected[i] || !protected[j] || chainOf[i] != ca || chainOf[j] != cb || lines[i] == lines[j] {
+						continue
+					}
+					alt := append([]string{}, lines...)
+					alt[i], alt[j] = alt[j], alt[i]
+					lo := min(i, j)
+					if !expectFail(fmt.Sprintf("swap-across-chains lines %d,%d", i, j), alt, lo) {
+						return
+					}
+				}
 			}
 		}
 		w.State(fmt.Sprintf("%s lines=%d chains=%d", format, len(lines), chain))
